@@ -188,6 +188,19 @@ let do_gen rest =
                      (String.concat "," (List.map (fun c -> string_of_int (int_of_nat c)) counts)))
   | _ -> failwith "gen: args"
 
+(* diag <id> (rg (def name expr) ...) *)
+let do_diag rest =
+  let i = String.index rest ' ' in
+  let cid = String.sub rest 0 i in
+  match parse_sexp (String.sub rest (i + 1) (String.length rest - i - 1)) with
+  | L (Atom "rg" :: defs) ->
+    let g = List.map (function L [Atom "def"; Atom n; e] -> (nat_of_int (ios n), expr_of e) | _ -> failwith "def") defs in
+    let ns l = String.concat "," (List.map (fun n -> string_of_int (int_of_nat n)) l) in
+    print_endline (Printf.sprintf "diag %s :: undefined=%s unused=%s dups=%s leftrec=%s reached=%s closed=%d" cid
+                     (ns (x_undefined g)) (ns (x_unused g)) (ns (x_duplicates g)) (ns (x_leftrec g)) (ns (x_reached g))
+                     (if x_closed_b g (x_reached g) then 1 else 0))
+  | _ -> failwith "diag: sexp"
+
 (* cli <id> strict src out openin openout read parse compile *)
 let do_cli rest =
   match String.split_on_char ' ' rest with
@@ -222,6 +235,7 @@ let () =
            | "spec" -> do_spec rest
            | "gen" -> do_gen rest
            | "cli" -> do_cli rest
+           | "diag" -> do_diag rest
            | _ -> print_endline ("ERR unknown command " ^ cmd))
         with
         | Stack_overflow -> print_endline ("ERR stack overflow: " ^ (String.sub line 0 (min 60 (String.length line))))
